@@ -30,6 +30,9 @@ def _segments(stmts):
     for s in stmts:
         if isinstance(s, ast.Expr) and isinstance(s.value, ast.Constant) and isinstance(s.value.value, str):
             continue
+        if isinstance(s, ast.For) and _is_accumulation_loop(s):
+            cur.append(s)          # the evaluator turns it into a comprehension term
+            continue
         if isinstance(s, (ast.For, ast.While)):
             if cur:
                 segs.append(('seq', cur))
@@ -40,6 +43,17 @@ def _segments(stmts):
     if cur:
         segs.append(('seq', cur))
     return segs
+
+
+def _is_accumulation_loop(st):
+    body = st.body
+    if st.orelse or not body:
+        return False
+    last = body[-1]
+    if not (isinstance(last, ast.Expr) and isinstance(last.value, ast.Call) and isinstance(last.value.func, ast.Attribute)
+            and last.value.func.attr == 'append' and isinstance(last.value.func.value, ast.Name) and len(last.value.args) == 1):
+        return False
+    return all(isinstance(x, ast.Assign) and len(x.targets) == 1 and isinstance(x.targets[0], ast.Name) for x in body[:-1])
 
 
 def _names_used(nodes):
